@@ -164,6 +164,42 @@ def poke_holes(rng, x, allow_inf=True):
     return x, mode
 
 
+def edit_in_place(obj, rng):
+    """what a caller may do with a result it owns: edit it in place. Returns the name of the edit, or None when the
+    object cannot be edited (read-only results are fine)"""
+    try:
+        if isinstance(obj, tuple):
+            hows = [edit_in_place(o, rng) for o in obj]
+            return next((h for h in hows if h is not None), None)
+        if isinstance(obj, np.ndarray):
+            if obj.size == 0:
+                return None
+            how = rng.choice(["times100", "first=5", "reverse", "one_minus", "fill"])
+            if how == "times100":
+                obj *= 100
+            elif how == "first=5":
+                obj.flat[0] = 5
+            elif how == "reverse":
+                obj[...] = obj[::-1].copy()
+            elif how == "one_minus":
+                np.subtract(1, obj, out=obj)
+            else:
+                obj.fill(7)
+            return how
+        if hasattr(obj, "iloc"):             # pandas Series / DataFrame
+            if obj.size == 0:
+                return None
+            obj.iloc[:] = -3.0
+            return "pandas_fill"
+        if isinstance(obj, list) and obj:
+            obj[0] = 5
+            obj.reverse()
+            return "list_edit"
+    except Exception:
+        return None
+    return None
+
+
 def box_history(bx, rng, plt):
     """call other public methods of a Boxplot on a throw-away figure; returns the op names.
     Methods that raise are recorded, not judged: only the statistics read afterwards are."""
@@ -306,55 +342,67 @@ def body(ctx):
                 inject = (None, rng.choice([0.0, ONE_M, 0.5]))
             elif u < 0.28:
                 inject = (rng.choice(["id", "rev"]), None)
-            np.random.seed(rng.randrange(2 ** 32))
-            with Draws(inject) as dr:
-                okc, smp = guarded("lhs", lambda: sutils.lhs(n, pmin, pmax_arg), {"n": n, "pmin": pmin, "pmax": pmax})
-            if not okc:
-                return
-            case = {"n": n, "pmin": pmin, "pmax": pmax, "inject": inject, "perms": dr.perms if n <= 12 else "...",
-                    "unit": dr.unit if n <= 12 else "..."}
-            smp = np.asarray(smp, dtype=float)
-            if smp.shape != (n, nparams):
-                ctx.finding("lhs/shape", "lhs does not return an (nsamples, nparams) array", case)
-                return
-            cols = [[float(v) for v in smp[:, j]] for j in range(nparams)]
-            add(f"lhs {n} {C.flist(pmin)} {C.flist([pmax[0]] if bcast else pmax)} "
-                f"[{';'.join(','.join(str(k) for k in p) for p in dr.perms)}] {C.fmat(dr.unit)}", "lhs", cols, case)
-            ctx.count(("lhs", n, tuple(pmin), tuple(pmax), tuple(cols[0][:4])), n >= 2,
-                      f"lhs/n={'1' if n == 1 else '2-9' if n < 10 else '10+'}/" + ("injected" if inject else "numpy-draws"),
-                      sample={"op": "lhs", "n": n, "pmin": pmin, "pmax": pmax, "first_rows": smp[:3].tolist()})
-            # ---- oracle: exactly one point per stratum [pmin + k du, pmin + (k+1) du), exact rationals
-            for j in range(nparams):
-                a, b = Fraction(pmin[j]), Fraction(pmax[j])
-                du = (b - a) / n
-                tol = Fraction(16 * math.ulp(max(abs(pmin[j]), abs(pmax[j])))) / du + Fraction(1, 10 ** 12)
-                cands, bad = [], None
-                for i, s in enumerate(cols[j]):
-                    t = (Fraction(s) - a) / du
-                    k = math.floor(t)
-                    c = {k}
-                    if t - k <= tol:
-                        c.add(k - 1)
-                    if (k + 1) - t <= tol:
-                        c.add(k + 1)
-                    c = {v for v in c if 0 <= v < n}
-                    if not c:
-                        bad = (i, s)
-                    cands.append(sorted(c))
-                if bad is not None:
-                    ctx.finding("lhs/sample_outside_range", "an lhs sample lies outside [pmin, pmax)",
-                                {**case, "param": j, "index": bad[0], "value": bad[1]})
-                elif not matching_ok(cands, n):
-                    occ = {}
-                    for c in cands:
-                        occ[c[0]] = occ.get(c[0], 0) + 1
-                    empty = [k for k in range(n) if k not in occ][:5]
-                    ctx.finding("lhs/stratum_not_hit_once", "some stratum of a parameter range holds no sample or several",
-                                {**case, "param": j, "empty_strata": empty, "column": cols[j][:20]})
-            # exact-rational instance on the first parameter of small cases
-            if n <= 12 and it % 3 == 0:
-                add(f"lhsq {n} {C.rat(pmin[0])} {C.rat(pmax[0])} {C.ilist(dr.perms[0])} [{','.join(C.rat(v) for v in dr.unit[0])}]",
-                    "lhsq", cols[0], {**case, "param": 0})
+            holder = {}
+
+            def step(sg):
+                np.random.seed(rng.randrange(2 ** 32))
+                with Draws(inject) as dr:
+                    okc, smp = guarded(sg, lambda: sutils.lhs(n, pmin, pmax_arg), {"n": n, "pmin": pmin, "pmax": pmax})
+                holder["raw"] = smp
+                if not okc:
+                    return
+                case = {"n": n, "pmin": pmin, "pmax": pmax, "inject": inject, "perms": dr.perms if n <= 12 else "...",
+                        "unit": dr.unit if n <= 12 else "..."}
+                smp = np.asarray(smp, dtype=float)
+                if smp.shape != (n, nparams):
+                    ctx.finding(sg + "/shape", "lhs does not return an (nsamples, nparams) array", case)
+                    return
+                cols = [[float(v) for v in smp[:, j]] for j in range(nparams)]
+                add(f"lhs {n} {C.flist(pmin)} {C.flist([pmax[0]] if bcast else pmax)} "
+                    f"[{';'.join(','.join(str(k) for k in p) for p in dr.perms)}] {C.fmat(dr.unit)}", "lhs", cols, case)
+                ctx.count(("lhs", n, tuple(pmin), tuple(pmax), tuple(cols[0][:4])), n >= 2,
+                          f"lhs/n={'1' if n == 1 else '2-9' if n < 10 else '10+'}/" + ("injected" if inject else "numpy-draws"),
+                          sample={"op": "lhs", "n": n, "pmin": pmin, "pmax": pmax, "first_rows": smp[:3].tolist()})
+                # ---- oracle: exactly one point per stratum [pmin + k du, pmin + (k+1) du), exact rationals
+                for j in range(nparams):
+                    a, b = Fraction(pmin[j]), Fraction(pmax[j])
+                    du = (b - a) / n
+                    tol = Fraction(16 * math.ulp(max(abs(pmin[j]), abs(pmax[j])))) / du + Fraction(1, 10 ** 12)
+                    cands, bad = [], None
+                    for i, s in enumerate(cols[j]):
+                        t = (Fraction(s) - a) / du
+                        k = math.floor(t)
+                        c = {k}
+                        if t - k <= tol:
+                            c.add(k - 1)
+                        if (k + 1) - t <= tol:
+                            c.add(k + 1)
+                        c = {v for v in c if 0 <= v < n}
+                        if not c:
+                            bad = (i, s)
+                        cands.append(sorted(c))
+                    if bad is not None:
+                        ctx.finding(sg + "/sample_outside_range", "an lhs sample lies outside [pmin, pmax)",
+                                    {**case, "param": j, "index": bad[0], "value": bad[1]})
+                    elif not matching_ok(cands, n):
+                        occ = {}
+                        for c in cands:
+                            occ[c[0]] = occ.get(c[0], 0) + 1
+                        empty = [k for k in range(n) if k not in occ][:5]
+                        ctx.finding(sg + "/stratum_not_hit_once", "some stratum of a parameter range holds no sample or several",
+                                    {**case, "param": j, "empty_strata": empty, "column": cols[j][:20]})
+                # exact-rational instance on the first parameter of small cases
+                if n <= 12 and it % 3 == 0:
+                    add(f"lhsq {n} {C.rat(pmin[0])} {C.rat(pmax[0])} {C.ilist(dr.perms[0])} [{','.join(C.rat(v) for v in dr.unit[0])}]",
+                        "lhsq", cols[0], {**case, "param": 0})
+
+            step('lhs')
+            # history: the caller edits the result it was handed in place, then asks again with equal arguments
+            if "raw" in holder and rng.random() < 0.3:
+                how = edit_in_place(holder.pop("raw"), rng)
+                if how is not None:
+                    ctx.hist['lhs/caller_edit/' + how] = ctx.hist.get('lhs/caller_edit/' + how, 0) + 1
+                    step('lhs/after_caller_edit')
         attempt('lhs', one_case)
 
     # malformed lhs
@@ -379,39 +427,87 @@ def body(ctx):
         pp_cases.append((rng.randint(1, nmax), rng.uniform(0, 0.5)))
     for c in (-1e-9, 0.5 + 1e-9, -0.0, 0.5000000000000001, -1.0, 2.0):
         pp_cases.append((rng.randint(1, 9), c))
+    def ppos_step(n_arg, cst_arg, sg="ppos", extra=None):
+        """one call ppos(n_arg, cst_arg): correspondence request + oracle; returns the object the code handed back"""
+        n, cst = int(n_arg), float(cst_arg)
+        case = {"n": n, "cst": cst, **(extra or {})}
+        inside = 0 <= cst <= 0.5 and n >= 1      # sizes 1.., constants of [0, 0.5]
+        raw = None
+        try:
+            raw = sutils.ppos(n_arg, cst_arg)
+            pp = [float(v) for v in np.asarray(raw, dtype=float).ravel()]
+            impl = ("ok", pp)
+        except Exception as e:
+            impl = ("err", None)
+            if inside:
+                ctx.finding(sg + "/raises", f"ppos raises {type(e).__name__} for a size >= 1 and a constant of [0, 0.5]",
+                            {**case, "error": str(e)[:200]})
+        add(f"ppos {n} {C.f2h(cst)}", "ppos", impl, case)
+        ctx.count((sg, n, cst, repr(extra)), impl[0] == "ok" and n >= 2, sg + "/" + ("accepted" if impl[0] == "ok" else "rejected"),
+                  sample={"op": "ppos", "n": n, "cst": cst, "first": impl[1][:3] if impl[1] else None})
+        if cst == cst and impl[0] == "ok" and n <= 40:
+            add(f"pposq {n} {C.rat(cst)}", "pposq", impl, case)
+        if not inside or impl[0] != "ok":
+            return raw
+        # ---- oracle
+        if len(impl[1]) != n:
+            ctx.finding(sg + "/wrong_length", "ppos does not return nval positions", case)
+            return raw
+        pp = impl[1]
+        if any(not (0 < p < 1) for p in pp):
+            ctx.finding(sg + "/outside_unit_interval", "a plotting position is not in (0, 1)", {**case, "pp": pp[:8]})
+        if any(not (p1 < p2) for p1, p2 in zip(pp, pp[1:])):
+            ctx.finding(sg + "/not_increasing", "plotting positions are not strictly increasing", {**case, "pp": pp[:8]})
+        if any(abs(pp[i] + pp[n - 1 - i] - 1) > 1e-12 for i in range(n)):
+            ctx.finding(sg + "/not_symmetric", "plotting positions are not symmetric about 0.5", {**case, "pp": pp[:8]})
+        return raw
+
     for (n, cst) in pp_cases:
-        def one_case():
-            case = {"n": n, "cst": cst}
-            inside = 0 <= cst <= 0.5 and n >= 1      # sizes 1.., constants of [0, 0.5]
-            try:
-                pp = [float(v) for v in np.asarray(sutils.ppos(n, cst), dtype=float).ravel()]
-                impl = ("ok", pp)
-            except Exception as e:
-                impl = ("err", None)
-                if inside:
-                    ctx.finding("ppos/raises", f"ppos raises {type(e).__name__} for a size >= 1 and a constant of [0, 0.5]",
-                                {**case, "error": str(e)[:200]})
-            add(f"ppos {n} {C.f2h(cst)}", "ppos", impl, case)
-            ctx.count(("ppos", n, cst), impl[0] == "ok" and n >= 2, "ppos/" + ("accepted" if impl[0] == "ok" else "rejected"),
-                      sample={"op": "ppos", "n": n, "cst": cst, "first": impl[1][:3] if impl[1] else None})
-            if cst == cst and impl[0] == "ok" and n <= 40:
-                add(f"pposq {n} {C.rat(cst)}", "pposq", impl, case)
-            if not inside:
-                return
-            # ---- oracle
-            if impl[0] != "ok":
-                return
-            if len(impl[1]) != n:
-                ctx.finding("ppos/wrong_length", "ppos does not return nval positions", case)
-                return
-            pp = impl[1]
-            if any(not (0 < p < 1) for p in pp):
-                ctx.finding("ppos/outside_unit_interval", "a plotting position is not in (0, 1)", {**case, "pp": pp[:8]})
-            if any(not (p1 < p2) for p1, p2 in zip(pp, pp[1:])):
-                ctx.finding("ppos/not_increasing", "plotting positions are not strictly increasing", {**case, "pp": pp[:8]})
-            if any(abs(pp[i] + pp[n - 1 - i] - 1) > 1e-12 for i in range(n)):
-                ctx.finding("ppos/not_symmetric", "plotting positions are not symmetric about 0.5", {**case, "pp": pp[:8]})
-        attempt('ppos', one_case)
+        attempt('ppos', lambda: ppos_step(n, cst))
+
+    # ---- histories: call, the caller edits the array it was handed in place, other calls in between, then the same
+    # size and constant again (in any spelling) - every answer must still be the plotting positions
+    EDITS = {"times100": lambda a: a.__imul__(100), "first=5": lambda a: a.__setitem__(0, 5.0),
+             "one_minus": lambda a: np.subtract(1, a, out=a), "zero_head": lambda a: a.__setitem__(slice(0, max(1, len(a) // 2)), 0.0),
+             "reverse": lambda a: a.__setitem__(slice(None), a[::-1].copy()), "nan": lambda a: a.fill(float("nan"))}
+    SPELL_N = {"int": int, "np.int64": np.int64, "np.int32": np.int32}
+    SPELL_C = {"float": float, "np.float64": np.float64}
+
+    def ppos_history(steps, source):
+        """steps: [{"n":, "cst":, "n_as":, "cst_as":, "edit": name or None}, ...]"""
+        for k, stp in enumerate(steps):
+            n_arg = SPELL_N[stp.get("n_as", "int")](stp["n"])
+            if stp.get("cst_as") == "int":
+                cst_arg = int(stp["cst"])
+            else:
+                cst_arg = SPELL_C[stp.get("cst_as", "float")](stp["cst"])
+            raw = ppos_step(n_arg, cst_arg, "ppos" if k == 0 else "ppos/after_caller_edit",
+                            {"history": steps[:k + 1], "step": k, "source": source})
+            how = stp.get("edit")
+            if how and isinstance(raw, np.ndarray) and raw.size:
+                try:
+                    EDITS[how](raw)
+                    ctx.hist["ppos/caller_edit/" + how] = ctx.hist.get("ppos/caller_edit/" + how, 0) + 1
+                except Exception:      # a read-only result cannot be spoiled by its caller: fine
+                    ctx.hist["ppos/caller_edit/refused"] = ctx.hist.get("ppos/caller_edit/refused", 0) + 1
+
+    # corpus first (minimised past failures)
+    for f in sorted((C.ROOT / "corpus" / PID).glob("*.json")):
+        import json as _json
+        c = _json.loads(f.read_text())
+        if c.get("entry") == "ppos_history":
+            attempt('ppos', lambda: ppos_history(c["steps"], "corpus/" + f.name))
+    for it in range(ctx.scale(80, 600)):
+        pool = [(rng.choice([1, 2, 3, 5, 8, 20, 50, rng.randint(1, nmax)]), rng.choice([0.0, 0.3, 0.375, 0.5, rng.uniform(0, 0.5)]))
+                for _ in range(rng.randint(1, 3))]
+        steps = []
+        for k in range(rng.randint(3, 7)):
+            n_, c_ = pool[0] if k == 0 else rng.choice(pool)
+            steps.append({"n": n_, "cst": c_, "n_as": rng.choice(list(SPELL_N)),
+                          "cst_as": "int" if c_ == 0.0 and rng.random() < 0.5 else rng.choice(list(SPELL_C)),
+                          "edit": rng.choice(list(EDITS)) if rng.random() < 0.7 else None})
+        steps.append({**steps[0], "n_as": rng.choice(list(SPELL_N)), "edit": None})     # the first call once more, last
+        attempt('ppos', lambda: ppos_history(steps, "generated"))
 
     # ================================================================ standard_normal
     for it in range(ctx.scale(450, 3000)):
@@ -428,42 +524,54 @@ def body(ctx):
             if rng.random() < 0.04:
                 xa[rng.randrange(n)] = np.nan
             case = {"x": xa.tolist() if n <= 30 else xa[:30].tolist() + ["..."], "n": n, "cst": cst, "method": meth, "kind": kind}
-            try:
-                if meth == "sorted":
-                    un, rk = sutils.standard_normal(xa, cst, sorted=True)
-                else:
-                    un, rk = sutils.standard_normal(xa, cst, rank_method=meth)
-                un = [float(v) for v in np.asarray(un, dtype=float).ravel()]
-                rk = [float(v) for v in np.asarray(rk, dtype=float).ravel()]
-                impl = ("ok", un, rk)
-            except Exception as e:
-                impl = ("err", None, None)
-                err_name = type(e).__name__
-            add(f"snorm {meth} {C.f2h(cst)} {C.flist(xa)}", "snorm", impl, case)
-            ctx.count(("snorm", meth, cst, tuple(xa.tolist())), impl[0] == "ok" and n >= 2 and kind != "const",
-                      f"standard_normal/{meth}/{kind}" if impl[0] == "ok" else "standard_normal/rejected")
-            if impl[0] != "ok":
-                if not np.any(np.isnan(xa)):
-                    ctx.finding("standard_normal/raises", f"standard_normal raises {err_name} on a NaN-free vector", case)
-                return
-            if len(un) != n or len(rk) != n:
-                ctx.finding("standard_normal/wrong_length", "standard_normal does not return one score and one rank per value", case)
-                return
-            # ---- oracle: scores strictly increasing in the rank, ranks ordered as the data
-            order = sorted(range(n), key=lambda i: (rk[i], un[i]))
-            for i, j in zip(order, order[1:]):
-                if (rk[i] < rk[j]) != (un[i] < un[j]) or (rk[i] == rk[j]) != (un[i] == un[j]):
-                    ctx.finding("standard_normal/score_not_increasing_in_rank",
-                                "normal scores are not a strictly increasing function of the ranks",
-                                {**case, "ranks": [rk[i], rk[j]], "scores": [un[i], un[j]]})
-                    break
-            if meth != "sorted":
-                order = sorted(range(n), key=lambda i: (x[i] if xa[i] == xa[i] else 0, rk[i]))
+            holder = {}
+
+            def step(sg):
+                try:
+                    if meth == "sorted":
+                        un, rk = sutils.standard_normal(xa, cst, sorted=True)
+                    else:
+                        un, rk = sutils.standard_normal(xa, cst, rank_method=meth)
+                    holder["raw"] = (un, rk)
+                    un = [float(v) for v in np.asarray(un, dtype=float).ravel()]
+                    rk = [float(v) for v in np.asarray(rk, dtype=float).ravel()]
+                    impl = ("ok", un, rk)
+                except Exception as e:
+                    impl = ("err", None, None)
+                    err_name = type(e).__name__
+                add(f"snorm {meth} {C.f2h(cst)} {C.flist(xa)}", "snorm", impl, case)
+                ctx.count(("snorm", meth, cst, tuple(xa.tolist())), impl[0] == "ok" and n >= 2 and kind != "const",
+                          f"standard_normal/{meth}/{kind}" if impl[0] == "ok" else "standard_normal/rejected")
+                if impl[0] != "ok":
+                    if not np.any(np.isnan(xa)):
+                        ctx.finding(sg + "/raises", f"standard_normal raises {err_name} on a NaN-free vector", case)
+                    return
+                if len(un) != n or len(rk) != n:
+                    ctx.finding(sg + "/wrong_length", "standard_normal does not return one score and one rank per value", case)
+                    return
+                # ---- oracle: scores strictly increasing in the rank, ranks ordered as the data
+                order = sorted(range(n), key=lambda i: (rk[i], un[i]))
                 for i, j in zip(order, order[1:]):
-                    if (xa[i] < xa[j]) != (rk[i] < rk[j]) or (xa[i] == xa[j]) != (rk[i] == rk[j]):
-                        ctx.finding("standard_normal/ranks_not_order_preserving", "ranks do not follow the order (and ties) of the data",
-                                    {**case, "values": [float(xa[i]), float(xa[j])], "ranks": [rk[i], rk[j]]})
+                    if (rk[i] < rk[j]) != (un[i] < un[j]) or (rk[i] == rk[j]) != (un[i] == un[j]):
+                        ctx.finding(sg + "/score_not_increasing_in_rank",
+                                    "normal scores are not a strictly increasing function of the ranks",
+                                    {**case, "ranks": [rk[i], rk[j]], "scores": [un[i], un[j]]})
                         break
+                if meth != "sorted":
+                    order = sorted(range(n), key=lambda i: (x[i] if xa[i] == xa[i] else 0, rk[i]))
+                    for i, j in zip(order, order[1:]):
+                        if (xa[i] < xa[j]) != (rk[i] < rk[j]) or (xa[i] == xa[j]) != (rk[i] == rk[j]):
+                            ctx.finding(sg + "/ranks_not_order_preserving", "ranks do not follow the order (and ties) of the data",
+                                        {**case, "values": [float(xa[i]), float(xa[j])], "ranks": [rk[i], rk[j]]})
+                            break
+
+            step('standard_normal')
+            # history: the caller edits the result it was handed in place, then asks again with equal arguments
+            if "raw" in holder and rng.random() < 0.3:
+                how = edit_in_place(holder.pop("raw"), rng)
+                if how is not None:
+                    ctx.hist['standard_normal/caller_edit/' + how] = ctx.hist.get('standard_normal/caller_edit/' + how, 0) + 1
+                    step('standard_normal/after_caller_edit')
         attempt('standard_normal', one_case)
 
     # ================================================================ pareto_front
@@ -498,32 +606,45 @@ def body(ctx):
             layout = rng.choice(["C", "F", "int"]) if nanmode == "complete" and kind in ("grid", "dups", "chain") else rng.choice(["C", "F"])
             arg = np.asfortranarray(arr) if layout == "F" else arr.astype(np.int64) if layout == "int" and kind != "grid2" else arr
             case = {"data": d, "orientation": o, "layout": layout}
-            okc, res = guarded("pareto_front", lambda: [int(v) for v in np.asarray(sutils.pareto_front(arg, o)).ravel()], case)
-            if not okc:
-                return
-            if len(res) != nv:
-                ctx.finding("pareto_front/wrong_length", "pareto_front does not return one flag per point", {**case, "got": res})
-                return
-            add(f"pareto {o} {C.fmat(d) if nv else '[]'}", "pareto", res, case)
-            ndom = sum(res)
-            ctx.count(("pareto", o, tuple(map(tuple, map(lambda r: [C.f2h(v) for v in r], d)))), nv >= 2 and 0 < ndom,
-                      f"pareto/{nanmode}/o={o}/" + ("none_dominated" if ndom == 0 else "all_dominated" if ndom == nv else "mixed"),
-                      sample={"op": "pareto", "data": d[:4], "orientation": o, "isdominated": res[:4]})
-            # ---- oracle: brute-force definition
-            def better(dj, di):
-                return all((a > b if o == 1 else a < b) for a, b in zip(dj, di) if a == a and b == b)
-            want = [1 if any(j != i and better(d[j], d[i]) for j in range(nv)) else 0 for i in range(nv)]
-            if res != want:
-                i = next(i for i in range(nv) if res[i] != want[i])
-                ctx.finding(f"pareto_front/{'complete' if nanmode == 'complete' else 'nan'}/flag_differs_from_definition",
-                            "a point is flagged dominated although no other point is strictly better in every non-missing "
-                            "coordinate, or the converse", {**case, "index": i, "got": res[i], "definition": want[i]})
-            if nanmode == "complete" and nv >= 1 and ndom == nv:
-                ctx.finding("pareto_front/complete/empty_front", "every point of a complete data set is flagged dominated", case)
-            okc, neg = guarded("pareto_front", lambda: [int(v) for v in sutils.pareto_front(-arr, -o)], {**case, "negated": True})
-            if okc and neg != res:
-                ctx.finding("pareto_front/orientation_is_not_negation", "pareto_front(-data, -orientation) differs from pareto_front(data, orientation)",
-                            {**case, "got": res, "negated": neg})
+            holder = {}
+
+            def step(sg):
+                okc, rawres = guarded(sg, lambda: sutils.pareto_front(arg, o), case)
+                holder["raw"] = rawres
+                res = [int(v) for v in np.asarray(rawres).ravel()] if okc else None
+                if not okc:
+                    return
+                if len(res) != nv:
+                    ctx.finding(sg + "/wrong_length", "pareto_front does not return one flag per point", {**case, "got": res})
+                    return
+                add(f"pareto {o} {C.fmat(d) if nv else '[]'}", "pareto", res, case)
+                ndom = sum(res)
+                ctx.count(("pareto", o, tuple(map(tuple, map(lambda r: [C.f2h(v) for v in r], d)))), nv >= 2 and 0 < ndom,
+                          f"pareto/{nanmode}/o={o}/" + ("none_dominated" if ndom == 0 else "all_dominated" if ndom == nv else "mixed"),
+                          sample={"op": "pareto", "data": d[:4], "orientation": o, "isdominated": res[:4]})
+                # ---- oracle: brute-force definition
+                def better(dj, di):
+                    return all((a > b if o == 1 else a < b) for a, b in zip(dj, di) if a == a and b == b)
+                want = [1 if any(j != i and better(d[j], d[i]) for j in range(nv)) else 0 for i in range(nv)]
+                if res != want:
+                    i = next(i for i in range(nv) if res[i] != want[i])
+                    ctx.finding(sg + f"/{'complete' if nanmode == 'complete' else 'nan'}/flag_differs_from_definition",
+                                "a point is flagged dominated although no other point is strictly better in every non-missing "
+                                "coordinate, or the converse", {**case, "index": i, "got": res[i], "definition": want[i]})
+                if nanmode == "complete" and nv >= 1 and ndom == nv:
+                    ctx.finding(sg + "/complete/empty_front", "every point of a complete data set is flagged dominated", case)
+                okc, neg = guarded(sg, lambda: [int(v) for v in sutils.pareto_front(-arr, -o)], {**case, "negated": True})
+                if okc and neg != res:
+                    ctx.finding(sg + "/orientation_is_not_negation", "pareto_front(-data, -orientation) differs from pareto_front(data, orientation)",
+                                {**case, "got": res, "negated": neg})
+
+            step('pareto_front')
+            # history: the caller edits the result it was handed in place, then asks again with equal arguments
+            if "raw" in holder and rng.random() < 0.3:
+                how = edit_in_place(holder.pop("raw"), rng)
+                if how is not None:
+                    ctx.hist['pareto_front/caller_edit/' + how] = ctx.hist.get('pareto_front/caller_edit/' + how, 0) + 1
+                    step('pareto_front/after_caller_edit')
         attempt('pareto_front', one_case)
 
     # ================================================================ box statistics
@@ -590,21 +711,33 @@ def body(ctx):
                 lab = labels(b, w)
             xa = np.array(x, dtype=float)
             case = {"data": x if n <= 40 else x[:40] + ["..."], "n": n, "box_coverage": b, "whiskers_coverage": w, "kind": kind, "holes": hmode}
-            okc, prc = guarded("boxplot_stats", lambda: boxplot.boxplot_stats(xa, b, w), case)
-            if not okc:
-                return
-            cnt, row = box_row(prc, lab)
-            add(f"box {C.f2h(b)} {C.f2h(w)} {C.flist(xa)}", "box", (cnt, row), case)
-            ctx.count(("box", b, w, tuple(C.f2h(v) for v in x)), cnt > 3 and kind != "const",
-                      f"boxplot_stats/{'<4' if cnt < 4 else '4+'}/{kind}/holes={hmode}",
-                      sample={"op": "boxplot_stats", "data": x[:8], "box": b, "whiskers": w, "count": cnt, "row": row})
-            box_oracle("boxplot_stats", x, b, w, cnt, row, case)
-            # exact-rational percentile of the model on small complete columns
-            fin = [v for v in x if v == v and abs(v) != float("inf")]
-            if 4 <= len(fin) <= 12 and it % 4 == 0:
-                p = float(100 - w) / 2
-                add(f"pctq {C.rat(p)} [{','.join(C.rat(v) for v in fin)}]", "pctq", row[0], case)
-                add(f"pct {C.f2h(p)} {C.flist(fin)}", "pct", row[0], case)
+            holder = {}
+
+            def step(sg):
+                okc, prc = guarded(sg, lambda: boxplot.boxplot_stats(xa, b, w), case)
+                holder["raw"] = prc
+                if not okc:
+                    return
+                cnt, row = box_row(prc, lab)
+                add(f"box {C.f2h(b)} {C.f2h(w)} {C.flist(xa)}", "box", (cnt, row), case)
+                ctx.count(("box", b, w, tuple(C.f2h(v) for v in x)), cnt > 3 and kind != "const",
+                          f"boxplot_stats/{'<4' if cnt < 4 else '4+'}/{kind}/holes={hmode}",
+                          sample={"op": "boxplot_stats", "data": x[:8], "box": b, "whiskers": w, "count": cnt, "row": row})
+                box_oracle(sg, x, b, w, cnt, row, case)
+                # exact-rational percentile of the model on small complete columns
+                fin = [v for v in x if v == v and abs(v) != float("inf")]
+                if 4 <= len(fin) <= 12 and it % 4 == 0:
+                    p = float(100 - w) / 2
+                    add(f"pctq {C.rat(p)} [{','.join(C.rat(v) for v in fin)}]", "pctq", row[0], case)
+                    add(f"pct {C.f2h(p)} {C.flist(fin)}", "pct", row[0], case)
+
+            step('boxplot_stats')
+            # history: the caller edits the result it was handed in place, then asks again with equal arguments
+            if "raw" in holder and rng.random() < 0.3:
+                how = edit_in_place(holder.pop("raw"), rng)
+                if how is not None:
+                    ctx.hist['boxplot_stats/caller_edit/' + how] = ctx.hist.get('boxplot_stats/caller_edit/' + how, 0) + 1
+                    step('boxplot_stats/after_caller_edit')
         attempt('boxplot_stats', one_case)
 
     # coverages outside [0, 100] reach numpy's range check only when there are 4+ finite values
